@@ -520,4 +520,80 @@ def run(tier):
                                      file=fn.relfile, line=ln)
                     res.instance("C20.R5", "%s:%s %s %s under %s" % (fn.name, ln, kind, ent, want), ok, finding=f_)
     res.floor("C20.R5", 4)
+    rule_R8(res, prog)
     return res.finish()
+
+
+def rule_R8(res, prog):
+    """'an entry is pinned while in use' needs the reference count of a session table entry to move only for connections that
+    hold a reference: ssl->sessionId is overwritten with the bytes of the ClientHello being parsed long before anything is
+    looked up, so `this connection has an id` proves nothing.  (a) the reference mark (BFLAG_SESSION_TABLE_REF) is set only
+    where inUse is incremented (matrixRegisterSession, matrixResumeSession) and every function that decrements inUse clears
+    it; (b) the owner test connHoldsCacheEntry answers `yes` only under the mark."""
+    from sa import cfgutil as cu
+    rid = "C20.R8"
+    res.rule(rid, "session table reference count: moved only by connections that carry the reference mark (set with the increment, cleared with the decrement)")
+    REF = prog.const("BFLAG_SESSION_TABLE_REF")
+    n = 0
+    for fn in sorted(prog.functions.values(), key=lambda f: f.qname):
+        if not fn.blocks or not fn.relfile.startswith("matrixssl/") or "/test/" in fn.relfile:
+            continue
+        inc = dec = setm = clr = None
+        for b in fn.blocks:
+            for i, ln, x in cu.block_exprs(b):
+                for m in walk(x):
+                    if m.get("k") == "bin" and m["op"] in ("+=", "-=") and (strip(m["l"]) or {}).get("f") == "inUse" and \
+                            "g_sessionTable" in cu.ftext(strip(m["l"])):
+                        r = strip(m["r"])
+                        neg = m["op"] == "-=" or "-1" in cu.ftext(r) or (r is not None and r.get("k") == "cond")
+                        if neg:
+                            dec = ln
+                        else:
+                            inc = ln
+                    if m.get("k") == "bin" and m["op"] in ("|=", "&=") and cu.ftext(strip(m["l"]) or {}) == "ssl->bFlags":
+                        r = strip(m["r"])
+                        if m["op"] == "|=" and r is not None and r.get("k") == "int" and r["v"] & REF:
+                            setm = ln
+                        if m["op"] == "&=" and r is not None and (r.get("k") == "int" and not (r["v"] & REF) or
+                                                                  (r.get("k") == "un" and r.get("op") == "~" and (strip(r["e"]) or {}).get("v") == REF)):
+                            clr = ln
+        if inc is None and dec is None and setm is None:
+            continue
+        n += 1
+        bad = None
+        if inc is not None and setm is None:
+            bad = (inc, "increments inUse without setting the reference mark")
+        elif setm is not None and inc is None:
+            bad = (setm, "sets the reference mark without taking a reference (no inUse increment)")
+        elif dec is not None and clr is None:
+            bad = (dec, "decrements inUse without clearing the reference mark (a second release of the same reference is possible)")
+        f_ = None
+        if bad:
+            f_ = Finding(PROP, rid, fn.name, "reference mark and reference count out of step",
+                         "%s:%s %s(): %s - the owner test then no longer tells connections that hold the entry from connections whose "
+                         "sessionId merely repeats the client's bytes, and an entry in use by one connection is released / wiped by another" % (
+                             fn.relfile, bad[0], fn.name, bad[1]), file=fn.relfile, line=bad[0])
+        res.instance(rid, "%s: inUse and the reference mark move together" % fn.name, bad is None, finding=f_)
+    # (b)
+    lst = prog.by_name.get("connHoldsCacheEntry")
+    if not lst:
+        raise AnalysisBroken("C20.R8: connHoldsCacheEntry vanished")
+    fo = lst[0]
+    gf = cu.guard_facts(fo)
+    for b in fo.blocks:
+        for i, ln, x in cu.block_exprs(b):
+            if x.get("k") != "ret" or x.get("e") is None:
+                continue
+            e = strip(x["e"])
+            if e is not None and e.get("k") == "int" and e["v"] == 0:
+                continue
+            n += 1
+            ok = any(txt == "(ssl->bFlags & %d)" % REF and tr for (txt, tr) in gf.get(b["id"], ()))
+            f_ = None
+            if not ok:
+                f_ = Finding(PROP, rid, fo.name, "owner test says yes without the reference mark",
+                             "%s:%s connHoldsCacheEntry(): a non-zero return is reachable without the fact (ssl->bFlags & BFLAG_SESSION_TABLE_REF): "
+                             "a ClientHello that names a live session's id and then fails to parse takes the alert path, matrixClearSession drops a "
+                             "reference of that entry and wipes it although the connection never held it" % (fo.relfile, ln), file=fo.relfile, line=ln)
+            res.instance(rid, "connHoldsCacheEntry:%s `holds an entry` only under the reference mark" % ln, ok, finding=f_)
+    res.floor(rid, 5)
